@@ -17,7 +17,7 @@ PROPERTY = 'C16'
 TOL = 1e-6
 
 META = {
-    'bounds': {'quick': 'DTLZ1 m=2..3 with k in {1,2,5}; DTLZ2-4 m=2..4 (dimension m+9); ZDT1 n in {2,3,30}; bi-objective problem',
+    'bounds': {'quick': 'DTLZ1 m=6,7 (k=1); DTLZ1 m=2..3 with k in {1,2,5}; DTLZ2-4 m=2..4 (dimension m+9); ZDT1 n in {2,3,30}; bi-objective problem',
                'thorough': 'DTLZ1 m=2..5, k in {1,2,5,10}; DTLZ2-4 m=2..5; ZDT1 n in {2,3,5,30}'},
     'stubs': ['np.asarray/np.array/float inside artap.benchmark_pareto keep proxies (object arrays; aliasing of asarray kept)',
               'math.sin/cos/sqrt (module globals of artap.benchmark_pareto) -> uninterpreted SIN/COS/SQRT + lemma library',
